@@ -100,4 +100,37 @@ def offsetOf : Fact.Zone → R Int
   | .offset _ o => .ok o
   | _ => .error .AttributeError
 
+/-! ### tzlocal: the `time` module is an input -/
+
+/-- the values `tzlocal.__init__` reads from the `time` module (set by the C library from TZ at `tzset`) -/
+structure TimeMod where
+  timezone : Int
+  altzone : Int
+  daylight : Int
+  tzname : String × String
+  deriving Repr
+
+/-- a `tzlocal` object: `_std_offset`, `_dst_offset`, `_dst_saved` (seconds), `_hasdst`, `_tznames` -/
+structure Local where
+  stdOffset : Int
+  dstOffset : Int
+  dstSaved : Int
+  hasdst : Bool
+  tznames : String × String
+  deriving DecidableEq, Repr
+
+def isTzlocal : Fact.Zone → Bool
+  | .loc _ _ _ _ => true
+  | _ => false
+/-- `other._std_offset` / `other._dst_offset` / `other._name` -/
+def locStd : Fact.Zone → R Int
+  | .loc s _ _ _ => .ok s
+  | _ => .error .AttributeError
+def locDst : Fact.Zone → R Int
+  | .loc _ d _ _ => .ok d
+  | _ => .error .AttributeError
+def nameOfZone : Fact.Zone → R String
+  | .offset n _ => .ok n
+  | _ => .error .AttributeError
+
 end HelpPy
